@@ -240,6 +240,25 @@ theorem page_in_range_partial (hf : FlushKeepsLookups env) (ops : List (Op L)) :
 theorem page_inv_init (sh : Shared D L) : Editor.PageInv env { shared := sh, state := .entering } := by
   intro s hs; cases hs
 
+/-- **a phrase list opened by Down / Space / `chewing_cand_open` is non-empty and on page 0**: its page
+    index is strictly below the page count, and its range is a non-empty part of the buffer -/
+theorem opened_phrase_list_in_range {sh sh' : Shared D L} {s : Selecting} {tp : Nat}
+    (h : newPhrase env sh = .ok (sh', .toState (.selecting s)))
+    (ht : Selecting.totalPage env s sh' = .ok tp) :
+    s.pageNo < tp ∧ ∃ p, s.sel = .phrase p ∧ p.begin_ < p.end_ ∧ p.end_ ≤ p.com.len := by
+  obtain ⟨cs, hc, hper, rfl⟩ := totalPage_ok env ht
+  obtain ⟨h0, hne, hp⟩ := newPhrase_nonempty env h hc
+  refine ⟨?_, hp⟩
+  rw [h0]
+  exact pageCount_pos _ _ hper (List.length_pos_iff.mpr hne)
+
+/-- what `PhraseSelector::init` (opening, `j` / `k`, `chewing_cand_list_first`) returns: a non-empty
+    range inside the buffer for which the dictionary has a phrase -/
+theorem init_range {fw : Bool} {st : Strategy} {com : Composition} {cur : Nat} {d : D} {p : PhraseSel}
+    (h : PhraseSel.init env fw st com cur d = .ok p) :
+    p.begin_ < p.end_ ∧ p.end_ ≤ p.com.len ∧ p.com = com ∧
+    PhraseSel.rangeHasPhrase env p d p.begin_ p.end_ = .ok true := init_ok env h
+
 /-! ### F32: the witness -/
 
 /-- two words for syllable 1, nothing else -/
@@ -390,6 +409,36 @@ theorem editor_choose_closes {e e' : Editor D L} {s : Selecting} {p : PhraseSel}
     · cases h
   · cases h
   · cases h
+
+/-- **special-symbol list**: an in-range choice inserts / replaces exactly the listed character,
+    restores the saved cursor and closes the list -/
+theorem choose_special {s : Selecting} {sh : Shared D L} {sym0 : Sym} {cs : List Text} {n : Nat}
+    (hsel : s.sel = .special sym0) (hm : specialMenu sym0 = .ok cs)
+    (hin : Selecting.offset s sh n < cs.length) :
+    ∃ ch, cs[Selecting.offset s sh n]? = some [ch] ∧
+      Selecting.select env s sh n = placeSymbol s sh (.chr ch) := Chewing.choose_special env hsel hm hin
+
+/-- **symbol table**, inside a category: the listed character is placed; at the top level a plain
+    entry places its first character and a category with a sub-table opens it on page 0 with the
+    buffer untouched -/
+theorem choose_symbol {s : Selecting} {sh : Shared D L} {y : SymSel} {n : Nat} (hsel : s.sel = .symbol y) :
+    (∀ c row, y.cursor = some c → y.table[c]? = some row → Selecting.offset s sh n < row.length →
+      Selecting.candidates env s sh = .ok (row.map fun ch => [ch]) ∧
+      Selecting.select env s sh n =
+        (placeSymbol s sh (.chr (row[Selecting.offset s sh n]?.getD 0))).map
+          fun (_, sh', t) => ({ s with sel := .symbol { y with cursor := none } }, sh', t)) ∧
+    (∀ name idx, y.cursor = none → y.category[Selecting.offset s sh n]? = some (name, some idx) →
+      Selecting.select env s sh n =
+        .ok ({ s with sel := .symbol { y with cursor := some (idx % 256) }, pageNo := 0 }, sh, .spin .absorb)) ∧
+    (∀ name ch, y.cursor = none → y.category[Selecting.offset s sh n]? = some (name, none) → name.head? = some ch →
+      Selecting.select env s sh n =
+        (placeSymbol s sh (.chr ch)).map fun (_, sh', t) => ({ s with sel := .symbol { y with cursor := none } }, sh', t)) := by
+  refine ⟨?_, fun name idx hcur hcat => choose_symbol_descend env hsel hcur hcat,
+    fun name ch hcur hcat hch => choose_symbol_plain env hsel hcur hcat hch⟩
+  intro c row hcur hrow hin
+  have := choose_symbol_leaf env hsel hcur hrow hin
+  rw [List.getElem?_eq_getElem hin]
+  exact this
 
 /-! ## 4. Completeness of a phrase list -/
 
